@@ -24,7 +24,7 @@ LITERALS = [
 CPP_LITERALS = ['R"(raw "x" \\ )"', 'R"d(a)b)d"', '"x"_ud', "u'c'", '1\'000', 'LR"(wide \\ raw)"', 'u8R"(u8 raw)"', 'uR"x(y)x"', 'UR"(z "q")"',
                 'R"(first line\n\tsecond \t line\n  third)"', 'LR"d(multi\n \tline)d"',
                 # a closer that shares only a prefix with the delimiter does not end the literal
-                'R"ab( x )ax" y )ab"', 'R"end(a)enx")end"', 'R"xy(1)x"2)xy"']
+                'R"ab( x )ax" y )ab"', 'R"end(a)enx")end"', 'R"xy(1)x"2)xy"', 'R"ab(x)ax"   "y)ab"', 'R"ab(x)ax" "y)ab"', 'R"q(a)q1"  ,  "b)q"']
 TEMPLATES = {
     "C": ("@C@\n#include <stdio.h>\n@C@\n#define M(x) ((x) + 1) @C@\nstatic const char *s = @S@; @C@\nint f(int a, @C@ int b) @C@\n{ @C@\n"
           "    if (a @C@ > b) @C@\n        return a; @C@\n    else @C@ { @C@\n        puts(@S@); @C@\n    }\n    @C@\n"
